@@ -33,25 +33,37 @@ inductive All2 {α β : Type} (R : α → β → Prop) : List α → List β →
   | cons {a : α} {b : β} {as : List α} {bs : List β} : R a b → All2 R as bs → All2 R (a :: as) (b :: bs)
 
 /-- an elseif after step 2 -/
-def EarlyOK (cx : Cx) (fuel : Nat) (E : Nat) (s0 : St) (env : Src.Env) (y : ESyn) (a : ElifA) : Prop :=
+def EarlyOK (cx : Cx) (fuel : Nat) (E : Nat) (s0 : St) (env : Src.Env) (sA : St) (y : ESyn) (a : ElifA) : Prop :=
   a.neg = y.neg ∧ HdrsOK y.hs ∧ NamesOf y.hs a.bps ∧ (∀ b ∈ a.bps, b.positive = !y.neg) ∧
-  (y.neg = true → ∃ blk, a.early = some blk ∧ BrOK cx fuel E s0 env ⟨true, y.hs, y.body, blk.hdrs, patchNone E blk.items⟩ ∧
+  (y.neg = true → ∃ blk sB, a.early = some blk ∧ NamedLe sB sA ∧
+    BrOK cx fuel E s0 env ⟨true, y.hs, y.body, blk.hdrs, patchNone E blk.items, sB⟩ ∧
     NoNone blk.hdrs ∧ NoNone (patchNone E blk.items)) ∧
   (y.neg = false → a.early = none)
 
+theorem EarlyOK.mono {cx : Cx} {fuel E : Nat} {s0 : St} {env : Src.Env} {sA sA' : St} {y : ESyn} {a : ElifA}
+    (h : EarlyOK cx fuel E s0 env sA y a) (hle : NamedLe sA sA') : EarlyOK cx fuel E s0 env sA' y a := by
+  obtain ⟨h1, h2, h3, h4, h5, h6⟩ := h
+  refine ⟨h1, h2, h3, h4, fun hn => ?_, h6⟩
+  obtain ⟨blk, sB, a1, a2, a3⟩ := h5 hn
+  exact ⟨blk, sB, a1, a2.trans hle, a3⟩
+
+theorem All2.imp {α β : Type} {R R' : α → β → Prop} (hi : ∀ a b, R a b → R' a b) : ∀ {as : List α} {bs : List β}, All2 R as bs → All2 R' as bs
+  | _, _, .nil => .nil
+  | _, _, .cons h r => .cons (hi _ _ h) (All2.imp hi r)
+
 def EAC (cx : Cx) (fuel : Nat) (env : Src.Env) (ys : List ESyn) (elifsA : M (List ElifA)) : Prop :=
-  ∀ E s0 s as s', SameStk s0 s → elifsA s = .ok (as, s') → SameStk s s' ∧ All2 (EarlyOK cx fuel E s0 env) ys as
+  ∀ E s0 s as s', SameStk s0 s → elifsA s = .ok (as, s') → SameStk s s' ∧ All2 (EarlyOK cx fuel E s0 env s') ys as
 
 def EBC (cx : Cx) (fuel : Nat) (env : Src.Env) (ys : List ESyn) (elifsB : List ElifA → M (List Blk)) : Prop :=
-  ∀ E s0 as, All2 (EarlyOK cx fuel E s0 env) ys as → ∀ s late s', SameStk s0 s → elifsB as s = .ok (late, s') →
+  ∀ E s0 sA as, All2 (EarlyOK cx fuel E s0 env sA) ys as → ∀ s late s', SameStk s0 s → NamedLe sA s → elifsB as s = .ok (late, s') →
     SameStk s s' ∧ ∃ ds : List BrD, ds.map BrD.syn = ys ∧ (∀ d ∈ ds, BrOK cx fuel E s0 env d) ∧
-      (∀ d ∈ ds, NoNone d.hdrs ∧ NoNone d.PB) ∧
+      (∀ d ∈ ds, NoNone d.hdrs ∧ NoNone d.PB) ∧ (∀ d ∈ ds, NamedLe d.sB s') ∧
       patchNone E (elifsFront as late) = frontOf ds ∧ patchNone E (elifsBack as late) = backOf ds
 
 theorem elifAOf_c (cx : Cx) (fuel : Nat) (env : Src.Env) (neg : Bool) (hdrs : List Hdr) (bodyS : Stmts) (hh : HdrsOK hdrs)
     {body : M (List LItem)} (hm : PM cx body (fun k b => Src.trStmts fuel [] env (toSrcStmts bodyS) k b) env)
     (E : Nat) (s0 : St) {s : St} {a : ElifA} {s' : St} (hstk : SameStk s0 s) (h : elifAOf neg hdrs body s = .ok (a, s')) :
-    SameStk s s' ∧ EarlyOK cx fuel E s0 env ⟨neg, hdrs, bodyS⟩ a := by
+    SameStk s s' ∧ EarlyOK cx fuel E s0 env s' ⟨neg, hdrs, bodyS⟩ a := by
   simp only [elifAOf, bind_ok, pure_ok] at h
   obtain ⟨bps0, s1, h1, bps, s2, h2, e, s3, h3, h4⟩ := h
   simp only [Prod.mk.injEq] at h4
@@ -69,7 +81,7 @@ theorem elifAOf_c (cx : Cx) (fuel : Nat) (env : Src.Env) (neg : Bool) (hdrs : Li
     simp only [Prod.mk.injEq] at h6
     obtain ⟨rfl, rfl⟩ := h6
     obtain ⟨br, st, nh, nb, _⟩ := blockOf_brOK cx fuel E s0 env true hdrs bodyS hm h5 hh hnm hpos (hstk.trans e12)
-    exact ⟨e12.trans st, rfl, hh, hnm, hpos, fun _ => ⟨blk, rfl, br, nh, nb⟩, fun hc => (by cases hc)⟩
+    exact ⟨e12.trans st, rfl, hh, hnm, hpos, fun _ => ⟨blk, _, rfl, NamedLe.refl _, br, nh, nb⟩, fun hc => (by cases hc)⟩
   | false =>
     simp only [Bool.false_eq_true, ↓reduceIte, pure_ok, Prod.mk.injEq] at h3
     obtain ⟨rfl, rfl⟩ := h3
@@ -77,28 +89,28 @@ theorem elifAOf_c (cx : Cx) (fuel : Nat) (env : Src.Env) (neg : Bool) (hdrs : Li
 
 theorem elifBOf_c (cx : Cx) (fuel : Nat) (env : Src.Env) (y : ESyn) {body : M (List LItem)}
     (hm : PM cx body (fun k b => Src.trStmts fuel [] env (toSrcStmts y.body) k b) env)
-    (E : Nat) (s0 : St) {a : ElifA} (ha : EarlyOK cx fuel E s0 env y a) {s : St} {blk : Blk} {s' : St} (hstk : SameStk s0 s)
-    (h : elifBOf a body s = .ok (blk, s')) :
-    SameStk s s' ∧ BrOK cx fuel E s0 env ⟨y.neg, y.hs, y.body, blk.hdrs, patchNone E blk.items⟩ ∧
+    (E : Nat) (s0 : St) {sA : St} {a : ElifA} (ha : EarlyOK cx fuel E s0 env sA y a) {s : St} {blk : Blk} {s' : St} (hstk : SameStk s0 s)
+    (hle : NamedLe sA s) (h : elifBOf a body s = .ok (blk, s')) :
+    SameStk s s' ∧ ∃ sB, NamedLe sB s' ∧ BrOK cx fuel E s0 env ⟨y.neg, y.hs, y.body, blk.hdrs, patchNone E blk.items, sB⟩ ∧
       NoNone blk.hdrs ∧ NoNone (patchNone E blk.items) := by
   obtain ⟨hn, hh, hnm, hpos, hneg, hposs⟩ := ha
   unfold elifBOf lateBlock at h
   cases hy : y.neg with
   | true =>
-    obtain ⟨blk0, he, br, nh, nb⟩ := hneg hy
+    obtain ⟨blk0, sB, he, hsB, br, nh, nb⟩ := hneg hy
     rw [he] at h
     simp only [pure_ok, Prod.mk.injEq] at h
     obtain ⟨rfl, rfl⟩ := h
-    exact ⟨SameStk.refl _, br, nh, nb⟩
+    exact ⟨SameStk.refl _, sB, hsB.trans hle, br, nh, nb⟩
   | false =>
     rw [hposs hy] at h
     obtain ⟨br, st, nh, nb, _⟩ := blockOf_brOK cx fuel E s0 env false y.hs y.body hm h hh hnm (by simpa [hy] using hpos) hstk
-    exact ⟨st, br, nh, nb⟩
+    exact ⟨st, _, NamedLe.refl _, br, nh, nb⟩
 
 theorem patchNone_ite_true (e : Nat) (l : List LItem) : patchNone e (if True then l else []) = patchNone e l := by simp
 
 /-- **`IfBlock.collect` as a piece.** -/
-theorem ite_piece (cx : Cx) (fuel : Nat) (env : Src.Env) (he : PlainEnv env) (neg : Bool) (hdrs : List Hdr) (hasElse : Bool)
+theorem ite_piece (cx : Cx) (fuel : Nat) (env : Src.Env) (he : EnvOK cx env) (neg : Bool) (hdrs : List Hdr) (hasElse : Bool)
     (bodyS elsS : Stmts) (ys : List ESyn) (hh : HdrsOK hdrs)
     {body els : M (List LItem)} {elifsA : M (List ElifA)} {elifsB : List ElifA → M (List Blk)}
     (hm : PM cx body (fun k b => Src.trStmts fuel [] env (toSrcStmts bodyS) k b) env)
@@ -126,12 +138,13 @@ theorem ite_piece (cx : Cx) (fuel : Nat) (env : Src.Env) (he : PlainEnv env) (ne
   -- both polarities end in the same assembly
   have fin : ∀ (items : List LItem) (d0 : BrD) (ds : List BrD), d0.neg = neg → d0.hs = hdrs → d0.body = bodyS → ds.map BrD.syn = ys →
       (∀ d ∈ d0 :: ds, BrOK cx fuel (s.lbc + 1) s env d) → (∀ d ∈ d0 :: ds, NoNone d.hdrs ∧ NoNone d.PB) →
-      ∀ ep', ElseOK cx (s.lbc + 1) s env ep' (fun k b => if hasElse then Src.trStmts fuel [] env (toSrcStmts elsS) k b else (b, k)) →
-      SameStk s s' → items = frontOf (d0 :: ds) ++ ep' ++ backOf (d0 :: ds) ++ [.label (s.lbc + 1) false] →
+      (∀ d ∈ d0 :: ds, NamedLe d.sB s') →
+      ∀ ep' sE, ElseOK cx (s.lbc + 1) s env sE ep' (fun k b => if hasElse then Src.trStmts fuel [] env (toSrcStmts elsS) k b else (b, k)) →
+      NamedLe sE s' → SameStk s s' → items = frontOf (d0 :: ds) ++ ep' ++ backOf (d0 :: ds) ++ [.label (s.lbc + 1) false] →
       PieceOK cx items s s'
         (fun k b => Src.tr fuel [] env (.ite (.cons neg (hdrs.map hdrEv) (toSrcStmts bodyS) (srcOfSyn ys)) hasElse (toSrcStmts elsS)) k b) env := by
-    intro items d0 ds a1 a2 a3 a4 hbr hnn ep' hel hst hitems
-    have := ite_assemble cx fuel (s.lbc + 1) s s' env he (d0 :: ds) hbr hnn ep' _ hel hst
+    intro items d0 ds a1 a2 a3 a4 hbr hnn hleB ep' sE hel hleE hst hitems
+    have := ite_assemble cx fuel (s.lbc + 1) s s' env he (d0 :: ds) hbr hnn ep' _ sE hel hst hleB hleE
     rw [hitems]
     have hsrc : srcBranches (d0 :: ds) = .cons neg (hdrs.map hdrEv) (toSrcStmts bodyS) (srcOfSyn ys) := by
       simp only [srcBranches, a1, a2, a3, srcBranches_eq ds, a4]
@@ -158,8 +171,9 @@ theorem ite_piece (cx : Cx) (fuel : Nat) (env : Src.Env) (he : PlainEnv env) (ne
     have st4 := st3.trans stE
     simp only [lateBlock, pure_ok, Prod.mk.injEq] at h5
     obtain ⟨rfl, rfl⟩ := h5
-    obtain ⟨stB, ds, hsyn, hbrs, hnns, hfront, hback⟩ := hB (s.lbc + 1) s as hall _ _ _ st4 h6
-    refine fin _ ⟨true, hdrs, bodyS, ifBlk.hdrs, patchNone (s.lbc + 1) ifBlk.items⟩ ds rfl rfl rfl hsyn ?_ ?_ _ hel (st4.trans stB) ?_
+    obtain ⟨stB, ds, hsyn, hbrs, hnns, hles, hfront, hback⟩ := hB (s.lbc + 1) s _ as hall _ _ _ st4 stE.3 h6
+    refine fin _ ⟨true, hdrs, bodyS, ifBlk.hdrs, patchNone (s.lbc + 1) ifBlk.items, s2⟩ ds rfl rfl rfl hsyn ?_ ?_ ?_ _ _ hel stB.3
+      (st4.trans stB) ?_
     · intro d hd
       simp only [List.mem_cons] at hd
       rcases hd with rfl | hd
@@ -170,6 +184,11 @@ theorem ite_piece (cx : Cx) (fuel : Nat) (env : Src.Env) (he : PlainEnv env) (ne
       rcases hd with rfl | hd
       · exact ⟨nh0, nb0⟩
       · exact hnns d hd
+    · intro d hd
+      simp only [List.mem_cons] at hd
+      rcases hd with rfl | hd
+      · exact ((stA.3.trans stE.3).trans stB.3)
+      · exact hles d hd
     · simp only [↓reduceIte, List.append_nil, frontOf, backOf, List.nil_append, patchNone_append, patchNone_id _ _ nh0, hfront, hback,
         List.append_assoc]
   | false =>
@@ -183,8 +202,9 @@ theorem ite_piece (cx : Cx) (fuel : Nat) (env : Src.Env) (he : PlainEnv env) (ne
     simp only [lateBlock] at h5
     obtain ⟨br0, stb, nh0, nb0, _⟩ := blockOf_brOK cx fuel (s.lbc + 1) s env false hdrs bodyS hm h5 hh hnm (by simpa using hpos) st4
     have st5 := st4.trans stb
-    obtain ⟨stB, ds, hsyn, hbrs, hnns, hfront, hback⟩ := hB (s.lbc + 1) s as hall _ _ _ st5 h6
-    refine fin _ ⟨false, hdrs, bodyS, ifBlk.hdrs, patchNone (s.lbc + 1) ifBlk.items⟩ ds rfl rfl rfl hsyn ?_ ?_ _ hel (st5.trans stB) ?_
+    obtain ⟨stB, ds, hsyn, hbrs, hnns, hles, hfront, hback⟩ := hB (s.lbc + 1) s _ as hall _ _ _ st5 (stE.3.trans stb.3) h6
+    refine fin _ ⟨false, hdrs, bodyS, ifBlk.hdrs, patchNone (s.lbc + 1) ifBlk.items, s5⟩ ds rfl rfl rfl hsyn ?_ ?_ ?_ _ _ hel
+      (stb.3.trans stB.3) (st5.trans stB) ?_
     · intro d hd
       simp only [List.mem_cons] at hd
       rcases hd with rfl | hd
@@ -195,6 +215,11 @@ theorem ite_piece (cx : Cx) (fuel : Nat) (env : Src.Env) (he : PlainEnv env) (ne
       rcases hd with rfl | hd
       · exact ⟨nh0, nb0⟩
       · exact hnns d hd
+    · intro d hd
+      simp only [List.mem_cons] at hd
+      rcases hd with rfl | hd
+      · exact stB.3
+      · exact hles d hd
     · simp only [Bool.false_eq_true, ↓reduceIte, List.append_nil, frontOf, backOf, List.nil_append, patchNone_append, patchNone_id _ _ nh0,
         hfront, hback, List.append_assoc]
 
